@@ -99,7 +99,7 @@ def replay(st):
                     finds.append({"fn": "find", "start": c, "key": key, "type": typ, "all": fa, "res": norm(r),
                                   "children": True, "siblings": False, "parents": False, "recursive": False})
                     for (ch, si, pa, rec) in ((True, True, True, True), (True, False, False, True), (True, False, False, False),
-                                              (False, True, False, True), (False, False, True, True), (False, False, True, False)):
+                                              (False, True, False, True), (False, False, True, True), (False, False, True, False))[:: (1 if fa else 2)]:
                         r = safe(lambda: objs[c].find_related(key=k, type=t, children=ch, siblings=si, parents=pa,
                                                               recursive=rec, findAll=fa), hid)
                         finds.append({"fn": "find_related", "start": c, "key": key, "type": typ, "all": fa, "res": norm(r),
